@@ -98,6 +98,9 @@ def gen_ops(rng, g, nops, mix=None, flush_end=True):
     size = g.size
     tag = 1
     hot = [rng.randrange(0, max(1, size // cs)) for _ in range(4)]
+    if rng.random() < 0.5:
+        # neighbours inside one L2 table / slice
+        hot = [min(max(0, hot[0] + d), max(0, size // cs - 1)) for d in (0, 1, 2, 5)]
 
     def rnd_range(maxlen_clusters=3):
         k = rng.random()
@@ -138,9 +141,14 @@ def gen_ops(rng, g, nops, mix=None, flush_end=True):
             if rng.random() < 0.7:
                 c = rng.choice(hot) if rng.random() < 0.6 else rng.randrange(0, max(1, size // cs))
                 ops.append(('D', c * cs, cs * rng.randrange(1, 4)))
-            else:
+            elif rng.random() < 0.7:
                 off = rng.randrange(0, size)
                 ops.append(('D', off, rng.randrange(0, 4 * cs)))
+            else:
+                # boundary arguments: zero length, beyond the end, saturating
+                off = rng.choice([0, rng.randrange(0, size), size - 1, size, size + cs, (1 << 64) - 1, (1 << 63)])
+                ln = rng.choice([0, 1, cs, size, (1 << 64) - 1, (1 << 64) - 1 - off if off < (1 << 64) - 1 else 1, 1 << 63])
+                ops.append(('D', off, ln))
         elif k == 'O':
             bs2, l2, rb = rand_params(rng, g.cb)
             # block size must divide what the history uses: keep the history's block size or smaller
